@@ -1,5 +1,7 @@
 /-
-  C10 lemmas, part 3: one round of `_ical_pull` restated over `eolR` (`pull_succ`).
+  C10 lemmas, part 3: one round of `_ical_pull` restated over `eolR` as a function `round`
+  (`pull_round`): `(q, none)` = go round again with `q`, `(q, some r)` = return.
+  The line under way that does not fit the stash is marked by `skip` and passed over as a whole.
 -/
 import Echse.Lemmas.Ical2
 namespace Echse.Ical
@@ -16,43 +18,81 @@ instance (c : Byte) : Decidable (Fold c) := by unfold Fold; infer_instance
 
 def bpOf (p : Parser) : Byte := p.buf.getD p.bix 0
 
-/-- what happens with the result of `_ical_proc` -/
-def afterProc (k : Parser → Parser × PullRes) (q : Parser × PRes) : Parser × PullRes :=
+def procRes (q : Parser × PRes) : Parser × Option PullRes :=
   match q.2 with
-  | .none => k q.1
-  | .eop => (q.1, .eop)
-  | .ve => (q.1, .ve q.1.comp.cur)
+  | .none => (q.1, none)
+  | .eop => (q.1, some .eop)
+  | .ve => (q.1, some (.ve q.1.comp.cur))
+
+def cont (k : Parser → Parser × PullRes) (x : Parser × Option PullRes) : Parser × PullRes :=
+  match x.2 with
+  | none => k x.1
+  | some r => (x.1, r)
+
+/-- the label `proc:` — the line is complete: a line passed over is dropped, an empty line is no line,
+any other goes to `_ical_proc` -/
+def procStep (p : Parser) : Parser × Option PullRes :=
+  if p.skip then ({ p with skip := false, stash := [] }, none)
+  else if p.stash.length ≠ 0 then procRes (doProc p) else (p, none)
+
+/-- copy to the stash, or find that the line does not fit -/
+def copyRest (p : Parser) : Parser :=
+  if p.skip then p else
+    match (esccpy (stashSize - p.stash.length) (p.buf.drop p.bix)).1 with
+    | some o => { p with stash := p.stash ++ o, sentinel := 0 }
+    | none => { p with skip := true, stash := [] }
 
 /-- stash what is left of the buffer (no complete line in it); `s`: the buffer ends behind a newline -/
 def stashRest (p : Parser) (s : Bool) : Parser × PullRes :=
-  let b := p.buf.drop p.bix
-  let room := stashSize - p.stash.length
-  if b.length ≥ room then ({ p with stash := [] }, .need)
-  else match (esccpy room b).1 with
-    | some o => ({ p with stash := p.stash ++ o, sentinel := 0, eolp := p.eolp || s, bix := p.buf.length }, .need)
-    | none => ({ p with sentinel := 0, eolp := p.eolp || s, bix := p.buf.length }, .need)
+  ({ copyRest p with eolp := (copyRest p).eolp || s, bix := (copyRest p).buf.length }, .need)
 
 /-- the parser after copying the complete line of raw length `e` to the stash -/
 def takeLine (p : Parser) (e : Nat) : Parser :=
-  match (esccpy (stashSize - p.stash.length) ((p.buf.drop p.bix).take e)).1 with
-  | some o => { p with bix := p.bix + e, stash := p.stash ++ o, sentinel := 0 }
-  | none => { p with bix := p.bix + e, sentinel := 0 }
-
-/-- the `chop_more` part of one round -/
-def chop (k : Parser → Parser × PullRes) (p : Parser) : Parser × PullRes :=
-  match eolR (p.buf.drop p.bix) with
-  | none => stashRest p false
-  | some e =>
-    if e ≥ (p.buf.drop p.bix).length then stashRest p true
-    else
-      let q := takeLine p e
-      if q.stash.length ≠ 0 then afterProc k (doProc q) else k q
+  if p.skip then { p with bix := p.bix + e } else
+    match (esccpy (stashSize - p.stash.length) ((p.buf.drop p.bix).take e)).1 with
+    | some o => { p with bix := p.bix + e, stash := p.stash ++ o, sentinel := 0 }
+    | none => { p with bix := p.bix + e, skip := true, sentinel := 0 }
 
 /-- the parser entering `chop_more` -/
 def preChop (p : Parser) : Parser :=
   if Marked p then { p with eolp := false, bix := p.bix + 1 } else p
 
-theorem chop_eq (f : Nat) (p : Parser) :
+/-- the `chop_more` part of one round -/
+def chopR (p : Parser) : Parser × Option PullRes :=
+  match eolR (p.buf.drop p.bix) with
+  | none => ((stashRest p false).1, some .need)
+  | some e =>
+    if e ≥ (p.buf.drop p.bix).length then ((stashRest p true).1, some .need)
+    else procStep (takeLine p e)
+
+def round (p : Parser) : Parser × Option PullRes :=
+  if Marked p ∧ ¬ Fold (bpOf p) then procStep (unmark p) else chopR (preChop p)
+
+theorem pull_zero (p : Parser) : pull 0 p = (p, .need) := by rw [pull]
+
+theorem proc_eq (f : Nat) (p : Parser) :
+    (if p.skip = true then pull f { p with skip := false, stash := [] }
+     else if p.stash.length ≠ 0 then
+       match doProc p with
+       | (p, r) =>
+         match r with
+         | PRes.none => pull f p
+         | PRes.eop => (p, PullRes.eop)
+         | PRes.ve => (p, PullRes.ve p.comp.cur)
+     else pull f p) = cont (pull f) (procStep p) := by
+  unfold procStep
+  by_cases hs : p.skip = true
+  · rw [if_pos hs, if_pos hs]; rfl
+  · rw [if_neg hs, if_neg hs]
+    by_cases hl : p.stash.length ≠ 0
+    · rw [if_pos hl, if_pos hl]
+      unfold procRes cont
+      rcases hd : doProc p with ⟨q, r⟩
+      cases r <;> rfl
+    · rw [if_neg hl, if_neg hl]; rfl
+
+theorem chop_eq (f : Nat) (p : Parser) (k : Parser → Parser × PullRes)
+    (hk : ∀ q, k q = cont (pull f) (procStep q)) :
     (have b := List.drop p.bix p.buf;
       have bz := b.length;
       have six := p.stash.length;
@@ -61,95 +101,66 @@ theorem chop_eq (f : Nat) (p : Parser) :
         match eol with
         | none => true
         | some e => decide (e ≥ bz);
-      if (noEol && decide (bz ≥ stashSize - six)) = true then
-        (({ p with stash := [] } : Parser), PullRes.need)
+      if noEol = true then
+        have p : Parser :=
+          if p.skip = true then p
+          else
+            match esccpy (stashSize - six) b with
+            | (some o, _) => { p with stash := p.stash ++ o, sentinel := 0 }
+            | (none, _) => { p with skip := true, stash := [] };
+        (({ p with eolp := p.eolp || eol.isSome, bix := p.buf.length } : Parser), PullRes.need)
       else
-        if noEol = true then
-          match esccpy (stashSize - six) b with
-          | (r, sent) =>
-            have stash' :=
-              match r with
-              | some o => p.stash ++ o
-              | none => p.stash;
-            have sent :=
-              match r with
-              | some _ => 0
-              | none => sent;
-            (({ p with stash := stash', sentinel := sent, eolp := p.eolp || eol.isSome,
-                       bix := p.buf.length } : Parser),
-              PullRes.need)
-        else
-          have llen := eol.getD 0;
-          match esccpy (stashSize - six) (List.take llen b) with
-          | (r, sent) =>
-            have p : Parser := { p with bix := p.bix + llen };
-            have p : Parser :=
-              match r with
-              | some o => { p with stash := p.stash ++ o, sentinel := 0 }
-              | none => { p with sentinel := sent };
-            if p.stash.length ≠ 0 then
-              match doProc p with
-              | (p, r) =>
-                match r with
-                | PRes.none => pull f p
-                | PRes.eop => (p, PullRes.eop)
-                | PRes.ve => (p, PullRes.ve p.comp.cur)
-            else pull f p) = chop (pull f) p := by
+        have llen := eol.getD 0;
+        have p : Parser := { p with bix := p.bix + llen };
+        have p : Parser :=
+          if p.skip = true then p
+          else
+            match esccpy (stashSize - six) (List.take llen b) with
+            | (some o, _) => { p with stash := p.stash ++ o, sentinel := 0 }
+            | (none, sent) => { p with skip := true, sentinel := sent };
+        k p) = cont (pull f) (chopR p) := by
   dsimp only
+  rw [hk]
   rw [findEol_pull]
-  unfold chop
+  unfold chopR
+  have hcopy : (if p.skip = true then p
+      else
+        match esccpy (stashSize - p.stash.length) (List.drop p.bix p.buf) with
+        | (some o, _) => { p with stash := p.stash ++ o, sentinel := 0 }
+        | (none, _) => { p with skip := true, stash := [] }) = copyRest p := by
+    unfold copyRest
+    by_cases hs : p.skip = true
+    · rw [if_pos hs, if_pos hs]
+    · rw [if_neg hs, if_neg hs]
+      rcases hx : esccpy (stashSize - p.stash.length) (List.drop p.bix p.buf) with ⟨r, sent⟩
+      cases r <;> rfl
   cases he : eolR (List.drop p.bix p.buf) with
   | none =>
-    simp only [Bool.true_and, decide_eq_true_eq, Option.isSome_none]
-    unfold stashRest
-    dsimp only
-    split
-    · rfl
-    · have hs := esccpy_snd (stashSize - p.stash.length) (List.drop p.bix p.buf)
-      rcases hx : esccpy (stashSize - p.stash.length) (List.drop p.bix p.buf) with ⟨r, sent⟩
-      rw [hx] at hs; simp only at hs; subst hs
-      cases r <;> rfl
+    simp only [if_true, Option.isSome_none]
+    rw [hcopy]; rfl
   | some e =>
     simp only [Option.isSome_some, Option.getD_some]
     by_cases hge : e ≥ (List.drop p.bix p.buf).length
-    · simp only [hge, decide_true, Bool.true_and, decide_eq_true_eq, if_true]
-      unfold stashRest
-      dsimp only
-      split
-      · rfl
-      · have hs := esccpy_snd (stashSize - p.stash.length) (List.drop p.bix p.buf)
-        rcases hx : esccpy (stashSize - p.stash.length) (List.drop p.bix p.buf) with ⟨r, sent⟩
-        rw [hx] at hs; simp only at hs; subst hs
-        cases r <;> rfl
-    · simp only [hge, decide_false, Bool.false_and, Bool.false_eq_true, if_false]
-      unfold takeLine
-      have hs := esccpy_snd (stashSize - p.stash.length) (List.take e (List.drop p.bix p.buf))
-      rcases hx : esccpy (stashSize - p.stash.length) (List.take e (List.drop p.bix p.buf)) with ⟨r, sent⟩
-      rw [hx] at hs; simp only at hs; subst hs
-      cases r with
-      | none =>
-        dsimp only
-        split
-        · unfold afterProc
-          rcases hd : doProc _ with ⟨q, r⟩
+    · simp only [hge, decide_true, if_true]
+      rw [hcopy]; rfl
+    · simp only [hge, decide_false, Bool.false_eq_true, if_false]
+      have ht : (if p.skip = true then ({ p with bix := p.bix + e } : Parser)
+          else
+            match esccpy (stashSize - p.stash.length) (List.take e (List.drop p.bix p.buf)) with
+            | (some o, _) => { p with bix := p.bix + e, stash := p.stash ++ o, sentinel := 0 }
+            | (none, sent) => { p with bix := p.bix + e, skip := true, sentinel := sent }) = takeLine p e := by
+        unfold takeLine
+        by_cases hs : p.skip = true
+        · rw [if_pos hs, if_pos hs]
+        · rw [if_neg hs, if_neg hs]
+          have hz := esccpy_snd (stashSize - p.stash.length) (List.take e (List.drop p.bix p.buf))
+          rcases hx : esccpy (stashSize - p.stash.length) (List.take e (List.drop p.bix p.buf)) with ⟨r, sent⟩
+          rw [hx] at hz; simp only at hz; subst hz
           cases r <;> rfl
-        · rfl
-      | some o =>
-        dsimp only
-        split
-        · unfold afterProc
-          rcases hd : doProc _ with ⟨q, r⟩
-          cases r <;> rfl
-        · rfl
-
-theorem pull_zero (p : Parser) : pull 0 p = (p, .need) := by rw [pull]
+      rw [ht]
 
 /-- one round of `_ical_pull` -/
-theorem pull_succ (f : Nat) (p : Parser) :
-    pull (f+1) p =
-      if Marked p ∧ ¬ Fold (bpOf p) then
-        (if p.stash.length ≠ 0 then afterProc (pull f) (doProc (unmark p)) else pull f (unmark p))
-      else chop (pull f) (preChop p) := by
+theorem pull_round (f : Nat) (p : Parser) : pull (f+1) p = cont (pull f) (round p) := by
   rw [pull.eq_2]
   have hfold : (p.buf.getD p.bix 0 ≠ SP ∧ p.buf.getD p.bix 0 ≠ TAB) ↔ ¬ Fold (bpOf p) := by
     unfold Fold bpOf
@@ -159,16 +170,11 @@ theorem pull_succ (f : Nat) (p : Parser) :
       | inr h => exact h1.2 h
     · intro h; exact ⟨fun h' => h (Or.inl h'), fun h' => h (Or.inr h')⟩
   simp only [hfold]
+  unfold round
   by_cases hc : Marked p ∧ ¬ Fold (bpOf p)
   · have hc' : p.eolp = true ∧ ¬ Fold (bpOf p) := hc
     rw [if_pos hc, if_pos hc', if_pos hc'.1]
-    show (if p.stash.length ≠ 0 then _ else _) = _
-    by_cases hs : p.stash.length ≠ 0
-    · rw [if_pos hs, if_pos hs]
-      unfold afterProc unmark
-      rcases hd : doProc _ with ⟨q, r⟩
-      cases r <;> rfl
-    · rw [if_neg hs, if_neg hs]; rfl
+    exact proc_eq f (unmark p)
   · have hc' : ¬ (p.eolp = true ∧ ¬ Fold (bpOf p)) := hc
     rw [if_neg hc, if_neg hc']
     by_cases hm : Marked p
@@ -177,72 +183,12 @@ theorem pull_succ (f : Nat) (p : Parser) :
         unfold preChop; rw [if_pos hm]
       rw [e]
       simp -zeta only [hm', if_true]
-      exact chop_eq f { p with eolp := false, bix := p.bix + 1 }
+      exact chop_eq f { p with eolp := false, bix := p.bix + 1 } _ (proc_eq f)
     · have hm' : ¬ (p.eolp = true) := hm
       have e : preChop p = p := by
         unfold preChop; rw [if_neg hm]
       rw [e]
       simp -zeta only [hm']
-      exact chop_eq f p
-
-/-! ### one round as a function: `(q, none)` = go round again with `q`, `(q, some r)` = return -/
-
-def procRes (q : Parser × PRes) : Parser × Option PullRes :=
-  match q.2 with
-  | .none => (q.1, none)
-  | .eop => (q.1, some .eop)
-  | .ve => (q.1, some (.ve q.1.comp.cur))
-
-def chopR (p : Parser) : Parser × Option PullRes :=
-  match eolR (p.buf.drop p.bix) with
-  | none => ((stashRest p false).1, some .need)
-  | some e =>
-    if e ≥ (p.buf.drop p.bix).length then ((stashRest p true).1, some .need)
-    else
-      let q := takeLine p e
-      if q.stash.length ≠ 0 then procRes (doProc q) else (q, none)
-
-def round (p : Parser) : Parser × Option PullRes :=
-  if Marked p ∧ ¬ Fold (bpOf p) then
-    (if p.stash.length ≠ 0 then procRes (doProc (unmark p)) else (unmark p, none))
-  else chopR (preChop p)
-
-def cont (k : Parser → Parser × PullRes) (x : Parser × Option PullRes) : Parser × PullRes :=
-  match x.2 with
-  | none => k x.1
-  | some r => (x.1, r)
-
-theorem afterProc_eq (k : Parser → Parser × PullRes) (q : Parser × PRes) :
-    afterProc k q = cont k (procRes q) := by
-  unfold afterProc cont procRes
-  rcases q with ⟨q, r⟩
-  cases r <;> rfl
-
-theorem stashRest_snd (p : Parser) (s : Bool) : (stashRest p s).2 = .need := by
-  unfold stashRest
-  dsimp only
-  split
-  · rfl
-  · split <;> rfl
-
-theorem chop_eq_cont (k : Parser → Parser × PullRes) (p : Parser) : chop k p = cont k (chopR p) := by
-  unfold chop chopR
-  split
-  · unfold cont; dsimp only; rw [← stashRest_snd p false]
-  · split
-    · unfold cont; dsimp only; rw [← stashRest_snd p true]
-    · dsimp only
-      split
-      · exact afterProc_eq _ _
-      · rfl
-
-theorem pull_round (f : Nat) (p : Parser) : pull (f+1) p = cont (pull f) (round p) := by
-  rw [pull_succ]
-  unfold round
-  split
-  · split
-    · exact afterProc_eq _ _
-    · rfl
-  · exact chop_eq_cont _ _
+      exact chop_eq f p _ (proc_eq f)
 
 end Echse.Ical
